@@ -958,19 +958,28 @@ class Patron(object):
     def redirect(self):
         """
         Perform redirect
+        Returns False if latest redirect response has no or a malformed location
+        so there is nothing to follow, True otherwise
         """
         if self.redirects:
             redirect = self.redirects[-1]
             location = redirect['headers'].get('location')
+            if not location:  # nothing to follow
+                return False
             path, sep, query = location.partition('?')
             path = unquote(path)
             if sep:
                 location = sep.join([path, query])
             else:
                 location = path
-            splits = urlsplit(location)
-            hostname = splits.hostname
-            port = splits.port
+            try:
+                splits = urlsplit(location)
+                hostname = splits.hostname
+                port = splits.port
+            except ValueError as ex:  # malformed location
+                redirect['errored'] = True
+                redirect['error'] = "Invalid redirect location '{0}'. {1}".format(location, ex)
+                return False
             scheme = splits.scheme
             path = splits.path
             if hostname is None:  # relative location so same scheme host port
@@ -1034,6 +1043,8 @@ class Patron(object):
             self.respondent.redirectant = False
             self.respondent.redirected = True
             self.respondent.ended = False  # since redirecting not done
+            return True
+        return False
 
     def serviceRequests(self):
         """
@@ -1111,10 +1122,13 @@ class Patron(object):
                                       ('errored', self.respondent.errored),
                                       ('error', self.respondent.error),
                                      ])
+                    followed = False
                     if self.respondent.redirectable and self.respondent.redirectant:
                         self.redirects.append(copy.copy(response))
-                        self.redirect()
-                    else:
+                        followed = self.redirect()
+                        if not followed:  # nothing to follow so is final response
+                            response = self.redirects.pop()
+                    if not followed:
                         if self.redirects:
                             response['redirects'] = copy.copy(self.redirects)
                         self.redirects = []
